@@ -13,6 +13,7 @@
   User code is arbitrary: `env.comp`, `env.valid`, `env.sugg` are universally quantified.
 -/
 import Ptk.Props.C15Inv
+import Ptk.Props.C15Common
 namespace Ptk.C15
 open Ptk.Py
 
@@ -98,16 +99,86 @@ theorem no_exception (hfix : cfg.fixD1 = true) {s : St} (h : Reachable cfg env s
   | cancel => exact (cancel_nav hb).noexc
   | tab => exact (tab_nav hb).noexc
   | apply c => exact (apply_nav hb c).noexc
+  | histComplete => exact (histComplete_nav (reachable_inv hfix h)).2
   | _ => rfl
 
 /-! ### completions, verdict and suggestion are never stale -/
 
 /-- **completions_for_orig**: the completions of a published menu are a prefix of what the
     completer produces for the menu's original document (the stream may still be loading), or
-    the `new_completion_from_position` image of such a list after its common part was inserted. -/
+    the `new_completion_from_position` image of such a list after its common part was inserted,
+    or (menu opened by `start_history_lines_completion`) the history-lines completions of the
+    original document. -/
 theorem completions_for_orig (hfix : cfg.fixD1 = true) {s : St} (h : Reachable cfg env s)
     {st : CState} (hcs : s.cs = some st) : Provenance env st :=
   ((reachable_inv hfix h).buf.cs_ok st hcs).prov
+
+/-- (used by the non-vacuity example below) -/
+def docAbC : Doc := ⟨['a', 'b'], 2⟩
+def envDemoC : Env :=
+  ⟨mkComp [⟨1, true, ['x', 'y']⟩, ⟨1, true, ['x', 'z']⟩], fun _ => none, fun _ => none, fun c => c == ' '⟩
+
+/-- **Inserting the common part preserves the meaning of every completion**: after
+    `insert_text(common_part)` the shortened completion
+    (`new_completion_from_position(len(common_part))`) applied to the new document gives exactly
+    the text and cursor the original completion gave on the original document. -/
+theorem common_part_preserves_meaning {d : Doc} (hd : d.WF) {L : List Completion}
+    (hne : commonSuffix d L ≠ []) {c : Completion} (hc : c ∈ L) (hs : c.start ≤ 0) :
+    applyCompl ⟨d.before ++ commonSuffix d L ++ d.after, d.cur + (commonSuffix d L).length⟩
+        (fromPos (commonSuffix d L).length c) =
+      applyCompl d c := by
+  obtain ⟨hsuf, hpre⟩ := commonSuffix_spec hne hc
+  generalize commonSuffix d L = cp at *
+  obtain ⟨k, hk⟩ : ∃ k : Nat, c.start = -(k : Int) := ⟨(-c.start).toNat, by omega⟩
+  have hk' : (-c.start).toNat = k := by omega
+  rw [hk'] at hsuf hpre
+  obtain ⟨rest, hrest⟩ := hpre
+  obtain ⟨pre, hpreq⟩ := hsuf
+  -- the completion text is longer than `k`: it adds the non-empty common part
+  have hlen : k ≤ c.text.length := by
+    apply Nat.le_of_not_lt
+    intro hlt
+    have : c.text.drop k = [] := List.drop_eq_nil_of_le (by omega)
+    rw [this] at hrest
+    have : cp = [] := by
+      cases cp with
+      | nil => rfl
+      | cons _ _ => simp at hrest
+    exact hne this
+  have htk : (c.text.take k).length = k := by simp; omega
+  have hbl : d.before.length = d.cur := by
+    unfold Doc.before; rw [List.length_take]; exact Nat.min_eq_left hd
+  have hpl : pre.length = d.before.length - k := by
+    have := congrArg List.length hpreq; simp at this; omega
+  have hdec : c.text = c.text.take k ++ (cp ++ rest) := by
+    rw [hrest]; exact (List.take_append_drop k c.text).symm
+  have hnb : (⟨d.before ++ cp ++ d.after, d.cur + cp.length⟩ : Doc).before = d.before ++ cp := by
+    show (d.before ++ cp ++ d.after).take (d.cur + cp.length) = d.before ++ cp
+    rw [← hbl, ← List.length_append, List.take_left]
+  have hna : (⟨d.before ++ cp ++ d.after, d.cur + cp.length⟩ : Doc).after = d.after := by
+    show (d.before ++ cp ++ d.after).drop (d.cur + cp.length) = d.after
+    rw [← hbl, ← List.length_append, List.drop_left]
+  have hfp : fromPos cp.length c = ⟨rest, 0⟩ := by
+    unfold fromPos
+    have e1 : ((cp.length : Int) - c.start).toNat = k + cp.length := by omega
+    rw [e1, ← List.drop_drop, ← hrest, List.drop_left']
+    rfl
+  have htake : d.before.take (d.before.length - k) = pre := by
+    rw [← hpl, ← hpreq, List.take_left']; rfl
+  rw [hfp, applyCompl_spec _ _ (by simp), applyCompl_spec _ _ hs, hnb, hna, hk', htake]
+  simp only [Int.neg_zero, Int.toNat_zero, Nat.sub_zero, List.take_length]
+  have e2 : pre ++ c.text = d.before ++ cp ++ rest := by
+    rw [hdec, ← hpreq]; simp
+  have e3 : pre.length + c.text.length = (d.before ++ cp).length + rest.length := by
+    have := congrArg List.length e2; simp at this ⊢; omega
+  rw [e2, e3]
+
+
+/-- the hypotheses hold for the two completions "bxy", "bxz" (start -1) on "ab|": the common
+    part is "x" -/
+example : commonSuffix docAbC (envDemoC.comp docAbC) = ['x'] ∧ docAbC.WF ∧
+    (⟨['b', 'x', 'y'], -1⟩ : Completion) ∈ envDemoC.comp docAbC := by
+  unfold Doc.WF; decide
 
 /-- a loading completer whose state object is still the buffer's (`proceed()`): the menu is
     for the document the completer was called with and holds exactly the first `i` results -/
@@ -500,6 +571,53 @@ theorem cursor_change_clears (s : St) (t : Text) (c : Nat) (hc : c ≠ s.cur) :
   rw [setDocument_cs]; simp [hc]
 
 
+/-! ### object identity: a foreign menu stops a loading completer -/
+
+/-- the menu installed by `start_history_lines_completion` is a new object for the current
+    document holding exactly the history-lines completions -/
+theorem hist_menu_is_new {s : St} (h : Inv cfg env s) :
+    ∃ idx, (histComplete cfg env s).1.cs =
+      some ⟨s.doc, histComps env.isSpace s.doc, idx, s.nextTok⟩ := by
+  unfold histComplete
+  have h1 := setCompletions_inv h (histComps env.isSpace s.doc) (Or.inr (Or.inr rfl))
+  have hcs : (setCompletions s (histComps env.isSpace s.doc)).cs =
+      some ⟨s.doc, histComps env.isSpace s.doc, none, s.nextTok⟩ := rfl
+  by_cases hn : histComps env.isSpace s.doc = []
+  · rw [goTo_ignored hcs hn, (goTo_spec h1.buf hcs none (by intro j hj; cases hj)).2.2.2]
+    exact ⟨none, by simp [CState.goToIndex, hn]⟩
+  · rw [(goTo_spec h1.buf hcs (some 0) (by
+      intro j hj; cases hj; exact List.length_pos_iff.mpr hn)).2.2.2]
+    refine ⟨some 0, ?_⟩
+    unfold CState.goToIndex
+    cases hc : histComps env.isSpace s.doc with
+    | nil => exact absurd hc hn
+    | cons _ _ => simp
+
+/-- **identity check**: after `start_history_lines_completion` no completer that is still
+    loading passes `proceed()` — whatever it delivers later is dropped
+    (`stale_completion_not_published`), even though a menu exists and even if the document
+    is the one the completer was started for. -/
+theorem foreign_menu_blocks_stream {s : St} (h : Inv cfg env s)
+    {m : Mode} {doc : Doc} {i tok : Nat}
+    (ht : Task.cLoad m doc i tok ∈ (histComplete cfg env s).1.tasks) :
+    proceed (histComplete cfg env s).1 tok = false := by
+  obtain ⟨idx, hcs⟩ := hist_menu_is_new h
+  have hmem : Task.cLoad m doc i tok ∈ s.tasks := by
+    have h1 := setCompletions_inv h (histComps env.isSpace s.doc) (Or.inr (Or.inr rfl))
+    have hcs1 : (setCompletions s (histComps env.isSpace s.doc)).cs =
+        some ⟨s.doc, histComps env.isSpace s.doc, none, s.nextTok⟩ := rfl
+    unfold histComplete at ht
+    by_cases hn : histComps env.isSpace s.doc = []
+    · rw [goTo_ignored hcs1 hn] at ht
+      exact mem_cLoad_pendExt (goTo_spec h1.buf hcs1 none (by intro j hj; cases hj)).2.2.1.ext ht
+    · exact mem_cLoad_pendExt (goTo_spec h1.buf hcs1 (some 0) (by
+        intro j hj; cases hj; exact List.length_pos_iff.mpr hn)).2.2.1.ext ht
+  have hlt := (h.task m doc i tok hmem).1
+  unfold proceed
+  rw [hcs]
+  simp; omega
+
+
 /-! ### the unrepaired `async_completer` (before commit 279c220) violates the property -/
 
 /-- the code as it was: the single no-op completion is dropped even while it is selected -/
@@ -507,7 +625,7 @@ def cfgUnfixed : Config := ⟨false, false, false, false, 10000, false⟩
 def cfgFixed : Config := ⟨false, false, false, false, 10000, true⟩
 
 /-- a completer whose only completion replaces the last three characters by themselves -/
-def envNoop : Env := ⟨mkComp [⟨3, true, []⟩], fun _ => none, fun _ => none⟩
+def envNoop : Env := ⟨mkComp [⟨3, true, []⟩], fun _ => none, fun _ => none, fun c => c == ' '⟩
 
 /-- start_completion(); the task starts; the completion arrives; the user selects it
     (complete_next) while the stream is still open; the stream ends -/
@@ -537,7 +655,8 @@ def cfgAll : Config := ⟨true, true, true, true, 10000, true⟩
 /-- completer: last char + "xy", last char + "xz" (common part "x"); validator: invalid iff
     (len + cursor) % 3 = 0; suggester: none iff len is even, else last two characters + "!" -/
 def envDemo : Env :=
-  ⟨mkComp [⟨1, true, ['x', 'y']⟩, ⟨1, true, ['x', 'z']⟩], mkValid 1 3 0, mkSugg 0 2 0 ['!']⟩
+  ⟨mkComp [⟨1, true, ['x', 'y']⟩, ⟨1, true, ['x', 'z']⟩], mkValid 1 3 0, mkSugg 0 2 0 ['!'],
+   fun c => c == ' '⟩
 
 def docAb : Doc := ⟨['a', 'b'], 2⟩
 
@@ -600,6 +719,23 @@ example :
       [.startCompletion .plain, .startCompletion .first, .start 0, .start 0]).tasks = 1 ∧
     (run cfgAll envDemo (init docAb)
       [.startCompletion .plain, .startCompletion .first, .start 0, .start 0]).runC = true := by decide
+
+/-- `foreign_menu_blocks_stream`: a completer is loading, the user opens the history-lines
+    menu on "ab\na|": the stream's next result is dropped and the coroutine returns -/
+example :
+    (run cfgAll envDemo (init ⟨['a', 'b', '\n', 'a'], 4⟩)
+      [.startCompletion .plain, .start 0, .histComplete]).cs =
+      some ⟨⟨['a', 'b', '\n', 'a'], 4⟩, [⟨['a'], -1⟩, ⟨['a', 'b'], -1⟩], some 0, 1⟩ ∧
+    (run cfgAll envDemo (init ⟨['a', 'b', '\n', 'a'], 4⟩)
+      [.startCompletion .plain, .start 0, .histComplete, .resume 0]).tasks = [] ∧
+    ((run cfgAll envDemo (init ⟨['a', 'b', '\n', 'a'], 4⟩)
+      [.startCompletion .plain, .start 0, .histComplete, .resume 0]).cs.map (·.comps)) =
+      some [⟨['a'], -1⟩, ⟨['a', 'b'], -1⟩] := by decide
+
+/-- cancellation: the flag of a killed coroutine is cleared, a new one may start -/
+example :
+    (run cfgAll envDemo (init docAb) [.startCompletion .plain, .start 0, .kill 0]).runC = false ∧
+    (run cfgAll envDemo (init docAb) [.startCompletion .plain, .start 0, .kill 0]).tasks = [] := by decide
 
 /-- `cycle_*` / `cancel_restores`: their hypotheses hold in the reachable state with a freshly
     opened two-entry menu -/
